@@ -19,11 +19,14 @@ VARIABLES l
 vars == <<l>>
 Init == l = 1
 
-Range(s) == {s[k] : k \in DOMAIN s}
 
 \* the document of a row: column a, or a and b for the two-column index
 Indexed(e, r) == IF e.multi THEN r.cols ELSE <<r.cols[1]>>
-Expected(e, q) == {e.rows[k].id : k \in {k \in DOMAIN e.rows : Match(Doc(Indexed(e, e.rows[k])), q, e.coll)}}
+\* word sets of the current rows, evaluated once per step
+DocWords(e) == TLCEval([k \in DOMAIN e.rows |-> Words(Doc(Indexed(e, e.rows[k])), e.coll)])
+\* the expected id set of every query of the step
+ExpectedAll(e) == LET dw == DocWords(e) IN
+                  TLCEval([i \in DOMAIN e.qs |-> MatchIdsW(e.rows, dw, Words(e.qs[i].q, e.coll))])
 
 Kind(ids, err, exp) ==
     IF err # "" THEN "error"
@@ -32,16 +35,17 @@ Kind(ids, err, exp) ==
     ELSE IF Len(ids) # Cardinality(exp) THEN "duplicate"
     ELSE "ok"
 
-Problems(e) ==
+Problems(e, exp) ==
     (IF e.rows # e.twin \/ e.res # e.twres THEN {[what |-> "twin", kind |-> "differs", q |-> 0]} ELSE {})
-    \cup {[what |-> "where", kind |-> Kind(e.qs[i].where, e.qs[i].werr, Expected(e, e.qs[i].q)), q |-> i] : i \in DOMAIN e.qs}
-    \cup {[what |-> "score", kind |-> Kind(e.qs[i].score, e.qs[i].serr, Expected(e, e.qs[i].q)), q |-> i] : i \in DOMAIN e.qs}
+    \cup {[what |-> "where", kind |-> Kind(e.qs[i].where, e.qs[i].werr, exp[i]), q |-> i] : i \in DOMAIN e.qs}
+    \cup {[what |-> "score", kind |-> Kind(e.qs[i].score, e.qs[i].serr, exp[i]), q |-> i] : i \in DOMAIN e.qs}
 
 Judge(e) ==
-    LET bad == {p \in Problems(e) : p.kind # "ok"} IN
-    IF bad = {} THEN TRUE
-    ELSE PrintT("MM " \o ToJson([l |-> l, id |-> e.id, hid |-> e.hid, k |-> e.k, op |-> e.op, dirty |-> e.dirty, bad |-> bad,
-                                  exp |-> [i \in DOMAIN e.qs |-> Expected(e, e.qs[i].q)]]))
+    LET exp == ExpectedAll(e)
+        bad == {p \in Problems(e, exp) : p.kind # "ok"}
+    IN IF bad = {} THEN TRUE
+       ELSE PrintT("MM " \o ToJson([l |-> l, id |-> e.id, hid |-> e.hid, k |-> e.k, op |-> e.op, dirty |-> e.dirty, bad |-> bad,
+                                     exp |-> exp]))
 
 Next ==
   /\ l <= Len(TraceLog)
